@@ -1,4 +1,4 @@
-import XpmVerif.Proofs.RestartWorld
+import XpmVerif.Proofs.RestartLink
 import XpmVerif.Generated.SchedFlags
 /-! C11 — restarting a killed experiment adopts running jobs and repeats nothing.
     Property theorems only.  Model M4 (`Model/Restart.lean`): the scheduler M2 with the adoption path of
@@ -111,6 +111,32 @@ theorem exactly_once_overall {fl : Flags} {totals : List Nat} {done0 : Nat → B
   · have := s2.mp hd; simp [h0] at this; simp [hd, this]
   · have : (w.a.d.dir i).succ ≠ 1 := fun e => hd (s2.mpr (Or.inr e))
     simp [hd]; omega
+
+/-- **a job reported DONE has its success marker** (all runs, all crashes): the final state DONE of any scheduler
+    incarnation — whether the job was launched by it, adopted, or found finished — implies that `<job>.done` exists. -/
+theorem done_has_marker {fl : Flags} {totals : List Nat} {done0 : Nat → Bool} {w : W} (h : WReach fl totals done0 w)
+    (j : Nat) (hf : (w.a.s.jobs j).pc = .finished .done) : (w.a.d.dir (w.a.s.jobs j).ident).done = true :=
+  (wreach_link h).2.fin j hf
+
+/-- **"every job body executed exactly once overall"**: starting from a workspace without the marker of this job, in any
+    reachable world (any number of runs, crashes at any step, any interleaving) a job whose final state is DONE had
+    exactly one successful execution of its body; and if no execution of it failed and none is running, its body was
+    started exactly once overall — by whichever run, adopted or not. -/
+theorem exactly_once_done {fl : Flags} {totals : List Nat} {done0 : Nat → Bool} {w : W} (h : WReach fl totals done0 w)
+    (j : Nat) (hf : (w.a.s.jobs j).pc = .finished .done) (h0 : done0 (w.a.s.jobs j).ident = false) :
+    (w.a.d.dir (w.a.s.jobs j).ident).succ = 1 ∧
+    ((w.a.d.dir (w.a.s.jobs j).ident).fails = 0 → w.a.d.running (w.a.s.jobs j).ident = 0 →
+      (w.a.d.dir (w.a.s.jobs j).ident).bodies = 1) := by
+  have hd := done_has_marker h j hf
+  obtain ⟨-, -, e3, -, -, e6⟩ := exactly_once_overall h (w.a.s.jobs j).ident
+  have hs : (w.a.d.dir (w.a.s.jobs j).ident).succ = 1 := by
+    rcases e3.mp hd with h1 | h1
+    · rw [h0] at h1; cases h1
+    · exact h1
+  refine ⟨hs, ?_⟩
+  intro hfl hr
+  have := e6 hfl hr h0
+  simpa [hd] using this
 
 /-- **bodies never overlap and never run after success**: two processes inside the body of the same job are one
     process, and a process is inside the body only while no success marker exists. -/
